@@ -78,16 +78,21 @@ def generate(rng, tier):
     return out
 
 
-def impl(case):
-    import circuitgraph as cg
-    c = lib.build_circuit(case["circuit"])
+def observe(cg, d, case, follow):
+    c = lib.build_circuit(d)
     obs = {"nodes": list(c.nodes()), "orders": U.record_orders(c)}
+    variables = None
     try:
         if case["fn"] == "cnf":
             formula, variables = cg.sat.cnf(c)
             obs["cnf"] = U.named_clauses(formula.clauses, variables)
             obs["nv"] = formula.nv
         else:
+            if follow:
+                try:
+                    _, variables = cg.sat.cnf(c)
+                except Exception:
+                    variables = None
             a = case["assume"]
             r = cg.sat.solve(c, None if a is None else {k: v for k, v in a})
             if r is False:
@@ -98,11 +103,23 @@ def impl(case):
                 obs["ret_other"] = repr(r)[:200]
     except Exception as e:
         obs["exc"] = type(e).__name__
+    if follow and variables is not None:
+        # adaptive alias probing: string keys of the IDPool that are not nodes become node names of follow-up circuits
+        fs = [[e, observe(cg, e, case, False)] for e in U.alias_followups(d, variables)]
+        if fs:
+            obs["followups"] = fs
     return obs
 
 
-def to_coq(case, obs):
-    head = f"{ccirc(case['circuit'])} {U.cords(obs['orders'])}"
+def impl(case):
+    import circuitgraph as cg
+    if case["fn"] == "skip":
+        return {}
+    return observe(cg, case["circuit"], case, True)
+
+
+def term(case, d, obs):
+    head = f"{ccirc(d)} {U.cords(obs['orders'])}"
     if case["fn"] == "cnf":
         o = U.cexn(obs["exc"]) if "exc" in obs else f"(Ok {U.cclauses(obs['cnf'])})"
         return f"CCnf {head} {o}"
@@ -117,12 +134,22 @@ def to_coq(case, obs):
     return f"CSolve {head} {U.cassign(case['assume'] or [])} {o}"
 
 
+def to_coq(case, obs):
+    if case["fn"] == "skip":
+        return None
+    return U.cmany([term(case, case["circuit"], obs)] + [term(case, e, o) for e, o in obs.get("followups", [])])
+
+
 def nontrivial(case, obs):
-    return any(n[1] in lib.GATES and n[3] for n in case["circuit"]["nodes"])
+    return case["fn"] != "skip" and any(n[1] in lib.GATES and n[3] for n in case["circuit"]["nodes"])
 
 
 def classify(case, obs):
+    if case["fn"] == "skip":
+        return ["skip"]
     tags = [case["fn"]] + ["kind:" + t for t in case.get("tags", [])]
+    if obs.get("followups"):
+        tags.append("alias-followups")
     if case["fn"] == "cnf":
         tags += U.describe(case["circuit"])
         if "cnf" in obs:
@@ -142,9 +169,18 @@ def finding_signature(case, obs):
     return None
 
 
+_MUTATE_BUDGET = [80]
+
+
 def mutate_case(rng, case):
-    d, tags = U.gen_circuit(rng, kind=(case.get("tags") or ["dag"])[0] if (case.get("tags") or ["dag"])[0] in
-                            ("dag", "parity", "bb", "bb_unconn", "cyclic", "stress", "const") else None)
+    """A fresh case of the same kind.  The framework asks for 40 neighbours per disagreeing (case, hash seed); an encoder change that
+    keeps (or breaks) the function makes a large part of the cases disagree, so the neighbourhood is budgeted: after 80 real neighbours
+    the remaining requests are answered with a marker that is skipped (to_coq -> None)."""
+    if _MUTATE_BUDGET[0] <= 0:
+        return {"fn": "skip"}
+    _MUTATE_BUDGET[0] -= 1
+    kind = (case.get("tags") or ["dag"])[0]
+    d, tags = U.gen_circuit(rng, kind=kind if kind in ("dag", "parity", "bb", "bb_unconn", "cyclic", "stress", "const") else None)
     if case["fn"] == "cnf":
         return {"fn": "cnf", "circuit": d, "tags": tags}
     a, ak = gen_assumptions(rng, d)
